@@ -2,12 +2,13 @@ import McpModel.Base.Proto
 import McpModel.ClientWrite.Monitor
 import McpModel.ClientWrite.Open
 import McpModel.ClientWrite.Close
+import McpModel.ClientWrite.Modes
 /-!
 Driver for the `write` stream of E6 (C01; go/harness/mcp/zz_verif_clientwrite_test.go): one case = one message sent
 through the real ClientSession over the real StreamableClientTransport.
 
   reset
-  wscn kind=<call|notif> auth=<none|grant|deny|block> [ts=<fine|tserr|tokerr|invalidgrant>] cancel=<0|1> a1=<ans> a2=<ans>   obs ok
+  wscn [proto=new] [strict=1] kind=<call|notif> auth=<none|grant|deny|block> [ts=<fine|tserr|tokerr|invalidgrant>] cancel=<0|1> a1=<ans> a2=<ans>   obs ok
        ans: terr | hang | st<code>[r] (r: JSON-RPC error body) | ok:<json|jsonbad|jsoncut|jsonhang|sse|other>:<s|x> (x: foreign session id)
   posts                                        obs n=<POSTs of the message> tok=<0/1 per POST> auth=<Authorize calls>
   end                                          obs result | done | err:<kind> | hang
@@ -35,6 +36,7 @@ def kv (toks : List String) (k : String) : Option String :=
 
 def parsePayload : String → Option Payload
   | "json" => some .json | "jsonbad" => some .jsonBad | "jsoncut" => some .jsonCut | "jsonhang" => some .jsonHang | "sse" => some .sse
+  | "accepted" => some .accepted
   | "sseopen" => some .sseOpen | "ssecuth" => some .sseCutH | "ssecutt" => some .sseCutT
   | "other" => some .other | _ => none
 
@@ -57,7 +59,7 @@ def parseTS : String → Option TS
   | "fine" => some .fine | "tserr" => some .tsErr | "tokerr" => some .tokErr | "invalidgrant" => some .invalidGrant | _ => none
 
 def showEKind : EKind → String
-  | .tokenSource => "token-source" | .reconnect => "reconnect" | .terr => "terr" | .ctx => "ctx" | .auth => "auth" | .rpc => "rpc" | .transient c => s!"st{c}" | .gone => "session-missing"
+  | .unexpectedStatus => "unexpected-status" | .tokenSource => "token-source" | .reconnect => "reconnect" | .terr => "terr" | .ctx => "ctx" | .auth => "auth" | .rpc => "rpc" | .transient c => s!"st{c}" | .gone => "session-missing"
   | .status c => s!"st{c}" | .mismatch => "mismatch" | .ctype => "ctype" | .body => "body" | .decode => "decode"
 
 def showEnd : End → String
@@ -107,6 +109,8 @@ def CClause.text : CClause → String
 def showB (b : Bool) : String := if b then "returned" else "blocked"
 
 structure DState where
+  raw : Option Scn := none      -- the scenario as scripted; `scn` is its normalisation under `modes`
+  modes : Modes := {}
   cat1m : Bool := false
   cfinal : Bool := false
   cleak : Bool := false
@@ -123,7 +127,9 @@ def engine : Engine DState where
     match toks with
     | ["reset"] => ({}, { model := "ok" })
     | "wscn" :: rest =>
-      let r : Option Scn := do
+      let r : Option (Scn × Modes) := do
+        let sessionless ← match kv rest "proto" with | none => some false | some "new" => some true | some _ => none
+        let strict ← match kv rest "strict" with | none => some false | some "1" => some true | some _ => none
         let kind ← match kv rest "kind" with | some "call" => some Kind.call | some "notif" => some Kind.notif | _ => none
         let auth ← (kv rest "auth").bind parseAuth
         let ts ← match kv rest "ts" with | none => some TS.fine | some t => parseTS t
@@ -134,9 +140,9 @@ def engine : Engine DState where
         let a1 ← (kv rest "a1").bind parseAns
         let a2 ← (kv rest "a2").bind parseAns
         let s : Scn := { kind := kind, auth := auth, ts := ts, cancel := cancel, close := close, a1 := a1, a2 := a2 }
-        if decide (ScnOK s) then some s else none
+        if decide (ScnOK s) then some (s, { sessionless := sessionless, strict := strict }) else none
       match r with
-      | some s => ({ scn := some s }, { model := "ok" })
+      | some (s, m) => ({ scn := some (s.norm m), raw := some s, modes := m }, { model := "ok" })
       | none => ({}, { model := "bad-scn" })
     | "oscn" :: rest =>
       let r : Option OScn := do
@@ -178,7 +184,10 @@ def engine : Engine DState where
     | ["close"] =>
       match d.scn with
       | none => (d, { model := "bad-op" })
-      | some s => (d, { model := if deleteAtClose (run s) then "delete=1" else "delete=0" })
+      | some _ =>
+        match d.raw with
+        | some raw => (d, { model := if deleteAtCloseM d.modes raw then "delete=1" else "delete=0" })
+        | none => (d, { model := "bad-op" })
     | ["probe"] =>
       if let some os := d.oscn then
         match parseProbe impl with
